@@ -18,6 +18,9 @@
  *       -> ret=<encoded> buf=<hex|NULL> errno=<E>
  *   cmp    <Type> <syn1> <hex1> <syn2> <hex2> decode both, compare_struct
  *       -> <cmp result -1/0/1> | DECFAIL
+ *   rfill  <Type> <seed> <maxlen>              asn_random_fill (srandom(seed)) -> OK <der> ck=<0|-1> | FAIL
+ *   rt     <Type> <insyn> <hex>                round-trip battery on the C alone, all five syntaxes
+ *       -> <syn>=<OK|ENCFAIL:errno|DEC:<RC>:<consumed>/<produced>|NEQ|CMP> ...
  *   types                                     list PDU names
  * syn: ber der uper cper oer coer xer cxer (decoders ignore the canonical distinction)
  * After every decode, whatever its outcome, the structure is printed (to
@@ -32,6 +35,7 @@
 
 #include <asn_application.h>
 #include <asn_internal.h>
+#include <asn_random_fill.h>
 
 struct pdu_ent { const char *name; asn_TYPE_descriptor_t *td; };
 extern struct pdu_ent pdu_table[];
@@ -288,6 +292,59 @@ static void cmd_cmp(void) {
     ASN_STRUCT_FREE(*td, b);
 }
 
+static void cmd_rfill(void) {
+    asn_TYPE_descriptor_t *td = find_type(tok[1]);
+    if(!td) { printf("BADARG\n"); return; }
+    srandom((unsigned)strtoul(tok[2], 0, 10));
+    void *st = 0;
+    if(asn_random_fill(td, &st, strtoul(tok[3], 0, 10)) != 0 || !st) {
+        printf("FAIL\n");
+        if(st) ASN_STRUCT_FREE(*td, st);
+        return;
+    }
+    char eb[128]; size_t el = sizeof(eb);
+    int ck = asn_check_constraints(td, st, eb, &el);
+    printf("OK "); print_der_of(td, st); printf(" ck=%d\n", ck);
+    ASN_STRUCT_FREE(*td, st);
+}
+
+/* C01 evaluated on the implementation alone: encode with each syntax, decode
+ * the produced bytes, demand RC_OK, consumed == produced (BASIC-XER: the
+ * trailing newline may stay), equal DER re-encoding and compare_struct == 0 */
+static void cmd_rt(void) {
+    asn_TYPE_descriptor_t *td = find_type(tok[1]);
+    enum asn_transfer_syntax ds, es;
+    if(!td || syntax(tok[2], &ds, &es)) { printf("BADARG\n"); return; }
+    void *st = decode_full(td, ds, tok[3]);
+    if(!st) return;
+    asn_encode_to_new_buffer_result_t ref = asn_encode_to_new_buffer(0, ATS_DER, td, st);
+    static const char *syns[] = {"der", "cper", "coer", "xer", "cxer", 0};
+    for(int i = 0; syns[i]; i++) {
+        enum asn_transfer_syntax d2, e2;
+        syntax(syns[i], &d2, &e2);
+        errno = 0;
+        asn_encode_to_new_buffer_result_t r = asn_encode_to_new_buffer(0, e2, td, st);
+        if(!r.buffer || r.result.encoded < 0) { printf("%s=ENCFAIL:%s ", syns[i], errname(errno)); free(r.buffer); continue; }
+        void *st2 = 0;
+        asn_dec_rval_t rv = asn_decode(0, d2, td, &st2, r.buffer, r.result.encoded);
+        if(rv.code != RC_OK || rv.consumed != (size_t)r.result.encoded) {
+            printf("%s=DEC:%s:%zu/%zd ", syns[i], rcname(rv.code), rv.consumed, r.result.encoded);
+        } else {
+            asn_encode_to_new_buffer_result_t r2 = asn_encode_to_new_buffer(0, ATS_DER, td, st2);
+            int same = ref.buffer && r2.buffer && ref.result.encoded == r2.result.encoded
+                       && memcmp(ref.buffer, r2.buffer, ref.result.encoded) == 0;
+            int c = td->op->compare_struct(td, st, st2);
+            printf("%s=%s ", syns[i], !same ? "NEQ" : c ? "CMP" : "OK");
+            free(r2.buffer);
+        }
+        if(st2) ASN_STRUCT_FREE(*td, st2);
+        free(r.buffer);
+    }
+    printf("\n");
+    free(ref.buffer);
+    ASN_STRUCT_FREE(*td, st);
+}
+
 static void cmd_types(void) {
     for(struct pdu_ent *p = pdu_table; p->name; p++) printf("%s ", p->name);
     printf("\n");
@@ -303,6 +360,7 @@ struct cmd { const char *name; void (*fn)(void); int minargs; };
 static const struct cmd cmds[] = {
     {"dec", cmd_dec, 3}, {"xcode", cmd_xcode, 4}, {"chk", cmd_chk, 4}, {"chunk", cmd_chunk, 4},
     {"cbfail", cmd_cbfail, 5}, {"tobuf", cmd_tobuf, 5}, {"newbuf", cmd_newbuf, 4}, {"cmp", cmd_cmp, 5},
+    {"rfill", cmd_rfill, 3}, {"rt", cmd_rt, 3},
     {"types", cmd_types, 0},
     EXTRA_CMDS
     {0, 0, 0}
